@@ -196,7 +196,8 @@ Proof using.
   apply ps_if_at; [apply ps_lift, ps_ret|].
   match goal with |- pstep_at _ (let '(_, _) := ?p in _) => destruct p as [ind inds] end.
   apply ps_if_at.
-  - apply ps_bind_at; [apply ps_put_at; [pos_triv|intros H; exact H]|].
+  - apply ps_if_at; [apply (ps_fail_at s 46%N (sc_mark s)); exact HT|].
+    apply ps_bind_at; [apply ps_put_at; [pos_triv|intros H; exact H]|].
     destruct number as [n|]; [apply ps_if; [apply ps_panic|apply ps_insert_token, ttok_empty, Hm]|apply ps_push_tok, ttok_empty, Hm].
   - apply ps_put_at; [pos_triv|intros H; exact H].
 Qed.
@@ -544,8 +545,11 @@ Proof using no_nul.
   match goal with |- context [if ?a then modify _ else ret tt] => generalize a; intros ifm end.
   sks.
   wskip; [rewrite (same_pos_rnth s) by spc; exact Hz|].
-  wb. eapply (pwp_look_ch orig no_nul); [eassumption|]. intros s2 M2 R2 I2.
-  assert (QI2 : QInv s2) by (eapply qinv_pkeeps; [apply inonly_pkeeps; exact I2|assumption]). cbv beta.
+  wb. apply swp_mono with (Q := fun _ s' => MarkOK s' /\ QInv s').
+  { dif; [|apply swp_ret; split; [eexists; eassumption|assumption]].
+    eapply (pwp_look_ch orig no_nul); [eassumption|]. intros s2 M2 R2 I2. split; [eexists; exact M2|].
+    eapply qinv_pkeeps; [apply inonly_pkeeps; exact I2|assumption]. }
+  intros c s2 [[pre2 M2] QI2]. cbv beta.
   wb. apply swp_mono with (Q := fun _ s' => MarkOK s' /\ QInv s').
   { dif; [|apply swp_ret; split; [eexists; eassumption|assumption]].
     wupost pos_skip_ws_to_eol.
